@@ -651,7 +651,7 @@ class SmtLibParser(object):
             return self._get_var(name, type_name)
         except PysmtTypeError:
             return self.env.formula_manager.FreshSymbol(typename=type_name,
-                                                        template=name + "%d")
+                                                        template=name.replace("%", "%%") + "%d")
 
     def atom(self, token: str, mgr: FormulaManager, unknown_as_string: bool=False) -> FNode:
         """
@@ -1425,7 +1425,7 @@ class SmtLibParser(object):
         bindings = []
         for (x, t) in namedparams:
             v = self.env.formula_manager.FreshSymbol(typename=t,
-                                                     template="__" + x + "%d")
+                                                     template="__" + x.replace("%", "%%") + "%d")
             self.cache.bind(x, v)
             formal.append(v)  # remember the variable
             bindings.append(x)  # remember the name
